@@ -1,4 +1,5 @@
 import SigmaVerif.Lemmas.Pipe
+import SigmaVerif.Model.Registry
 /-!
 # C15 — converting a rule gives the same result whatever happened before (ownership part)
 
@@ -119,5 +120,109 @@ theorem disturbed_not_visible (s : Sys) (op : Op) (p i : Nat) (hp : p < s.pipes.
     (s.step op).visible p ≠ (s.step op).specVisible p := by
   intro h
   exact ((step_visible_iff s op p hp).1 h).2 i hi ht
+
+/-! ## 6. pipeline definitions registered through `sigma.pipelines.base.Pipeline`
+
+What a registered handle denotes is independent of what the process registered afterwards: the object a
+decoration returned keeps calling the function it decorated, an inheriting class keeps its own instance. -/
+section Registry
+open SigmaVerif.Registry
+
+theorem lookup_append_some {c d : Nat} {l l' : List (Nat × Nat)} (h : lookup c l = some d) :
+    lookup c (l ++ l') = some d := by
+  induction l with
+  | nil => simp [lookup] at h
+  | cons x xs ih =>
+    obtain ⟨k, v⟩ := x
+    simp only [lookup, List.cons_append] at h ⊢
+    split
+    · rename_i hk; simpa [hk] using h
+    · rename_i hk; simp only [hk, if_false] at h; exact ih h
+
+theorem lookup_append_none {c d : Nat} {l : List (Nat × Nat)} (h : lookup c l = none) :
+    lookup c (l ++ [(c, d)]) = some d := by
+  induction l with
+  | nil => simp [lookup]
+  | cons x xs ih =>
+    obtain ⟨k, v⟩ := x
+    simp only [lookup, List.cons_append] at h ⊢
+    split
+    · rename_i hk; simp [hk] at h
+    · rename_i hk; simp only [hk, if_false] at h; exact ih h
+
+theorem step_funcs_prefix (r : Reg) (op : Registry.Op) : ∃ t, (r.step op).1.funcs = r.funcs ++ t := by
+  cases op with
+  | decorate d => exact ⟨[d], rfl⟩
+  | instantiate c d =>
+    simp only [Reg.step]; split <;> exact ⟨[], by simp⟩
+  | callFunc h => exact ⟨[], by simp [Reg.step]⟩
+  | callClass c => exact ⟨[], by simp [Reg.step]⟩
+
+theorem run_funcs_prefix (r : Reg) (ops : List Registry.Op) : ∃ t, (r.run ops).1.funcs = r.funcs ++ t := by
+  induction ops generalizing r with
+  | nil => exact ⟨[], by simp [Reg.run]⟩
+  | cons op ops ih =>
+    obtain ⟨t1, h1⟩ := step_funcs_prefix r op
+    obtain ⟨t2, h2⟩ := ih (r.step op).1
+    refine ⟨t1 ++ t2, ?_⟩
+    simp only [Reg.run]
+    rw [h2, h1, List.append_assoc]
+
+/-- whatever is decorated, instantiated or called afterwards, an existing function handle keeps its definition -/
+theorem callFunc_stable (r : Reg) (ops : List Registry.Op) (h : Nat) (hh : h < r.funcs.length) :
+    (r.run ops).1.funcs[h]? = r.funcs[h]? := by
+  obtain ⟨t, ht⟩ := run_funcs_prefix r ops
+  rw [ht, List.getElem?_append_left hh]
+
+/-- the handle a decoration returns denotes the decorated definition at the end of every later history -/
+theorem decorated_handle_denotes_its_definition (r : Reg) (d : Nat) (ops : List Registry.Op) :
+    (((r.step (.decorate d)).1.run ops).1.step (.callFunc r.funcs.length)).2 = some d := by
+  show ((r.step (.decorate d)).1.run ops).1.funcs[r.funcs.length]? = some d
+  rw [callFunc_stable _ _ _ (by simp [Reg.step])]
+  simp [Reg.step]
+
+theorem step_lookup_stable (r : Reg) (op : Registry.Op) (c d : Nat) (h : lookup c r.insts = some d) :
+    lookup c (r.step op).1.insts = some d := by
+  cases op with
+  | decorate d' => simpa [Reg.step] using h
+  | instantiate c' d' =>
+    simp only [Reg.step]; split
+    · exact h
+    · exact lookup_append_some h
+  | callFunc h' => simpa [Reg.step] using h
+  | callClass c' => simpa [Reg.step] using h
+
+theorem run_lookup_stable (r : Reg) (ops : List Registry.Op) (c d : Nat) (h : lookup c r.insts = some d) :
+    lookup c (r.run ops).1.insts = some d := by
+  induction ops generalizing r with
+  | nil => simpa [Reg.run] using h
+  | cons op ops ih =>
+    simp only [Reg.run]
+    exact ih _ (step_lookup_stable r op c d h)
+
+/-- the first instantiation of an inheriting class yields an object that builds the class's own definition, and it
+keeps doing so after every later history (decorations of functions, instantiations of this or other classes) -/
+theorem class_instance_denotes_its_definition (r : Reg) (c d : Nat) (hnew : lookup c r.insts = none)
+    (ops : List Registry.Op) :
+    (((r.step (.instantiate c d)).1.run ops).1.step (.callClass c)).2 = some d := by
+  show lookup c ((r.step (.instantiate c d)).1.run ops).1.insts = some d
+  apply run_lookup_stable
+  simp only [Reg.step, hnew]
+  exact lookup_append_none hnew
+
+/-- non-vacuity: a registry with decorated functions and another class's instance -/
+example : lookup 7 ({ funcs := [1, 2], insts := [(3, 30)] } : Reg).insts = none ∧
+    (({ funcs := [1, 2], insts := [(3, 30)] } : Reg).run
+      [.instantiate 7 70, .decorate 5, .instantiate 3 99, .callClass 7, .callFunc 0, .callFunc 2, .callClass 3]).2
+      = [some 7, some 2, some 3, some 70, some 1, some 5, some 30] := by decide
+
+/-- the defect repaired in `Pipeline.__new__` (one `_instance` slot shared by the decorator and every inheriting
+class): the first decorated function answered with the definition decorated last, and an inheriting class
+answered with a decorated function's definition -/
+theorem single_slot_history_dependent :
+    (Reg1.run {} [.decorate 1, .decorate 2, .callFunc 0]).2 = [some 0, some 0, some 2] ∧
+    (Reg1.run {} [.decorate 1, .instantiate 7 70, .callClass 7]).2 = [some 0, some 7, some 1] := by decide
+
+end Registry
 
 end SigmaVerif.Props.C15
